@@ -183,10 +183,18 @@ def run(ctx, rep):
     # the conditional parameters are the ones used for the draw
     ns = gauss.gm_method(ctx, '_get_normal_samples')
     calls = [c for c in walk_no_nested(ns.node) if isinstance(c, ast.Call) and call_name(c) == '_get_conditional_distribution']
-    rep.check('D3.schur', ns, calls[0] if calls else ns.node.name, bool(calls) and isinstance(stmt_of(calls[0]), ast.Assign)
-              and isinstance(stmt_of(calls[0]).targets[0], ast.Tuple) and len(stmt_of(calls[0]).targets[0].elts) == 3,
-              'the draw uses (means, covariance, columns) of the conditional distribution',
-              'the conditional parameters are not unpacked into the draw', construct='use of the conditional parameters')
+    from ..idioms import private_closure
+    deep = [c for g in private_closure(ctx, ns, cls) if g is not ns for c in walk_no_nested(g.node)
+            if isinstance(c, ast.Call) and call_name(c) == '_get_conditional_distribution']
+    unpacked = bool(calls) and isinstance(stmt_of(calls[0]), ast.Assign) and isinstance(stmt_of(calls[0]).targets[0], ast.Tuple) \
+        and len(stmt_of(calls[0]).targets[0].elts) == 3
+    if unpacked:
+        rep.ok('D3.schur', ns, calls[0], 'the draw uses (means, covariance, columns) of the conditional distribution', construct='use of the conditional parameters')
+    elif calls or deep:
+        rep.undecided('D3.schur', ns, (calls or [ns.node.name])[0], 'the conditional parameters reach the draw through a helper or an unrecognised form',
+                      construct='use of the conditional parameters')
+    else:
+        rep.bad('D3.schur', ns, ns.node.name, 'sampling with conditions never computes the conditional distribution', construct='use of the conditional parameters')
     nsp = gauss.report_space(ctx, rep, 'D3.draw', ['_get_normal_samples'])
     if not nsp:
         rep.ok('D3.draw', ns, ns.node.name, 'no kind mismatch on any path of the draw', construct='def _get_normal_samples')
